@@ -73,6 +73,7 @@ type World struct {
 	unconverged string
 	flowsJudged, flowsDenied, flowsAllowed int
 	followUpDone                           bool
+	c16Skipped                             bool
 }
 
 func (w *World) fail(oracle, key, format string, a ...interface{}) {
@@ -165,7 +166,12 @@ func (w *World) startProcess() {
 	w.proc = w.S.NewProc()
 	w.inst = &Instance{}
 	inst := w.inst
-	t := w.S.Spawn("init", w.proc, func() { startInstance(inst, thisNode) })
+	// as in the real daemon, the pod informer is running from the start only if a policy exists at start
+	synced := len(w.cl.Pols) > 0
+	if !synced {
+		w.S.Stat("probe.pod-informer-not-started")
+	}
+	t := w.S.Spawn("init", w.proc, func() { startInstance(inst, thisNode, synced) })
 	t.Tag = "init"
 }
 
@@ -213,6 +219,9 @@ func (w *World) setupPriorKernel() {
 		desc = append(desc, fmt.Sprintf("foreign(%d)", n))
 	}
 	mode := c.Choose(3)
+	if mode == 1 && len(w.cl.Pols) == 0 {
+		mode = 2 // "in sync" with a cluster without policies is the empty state again: use the draw for a ghost
+	}
 	if mode == 0 {
 		w.priorDesc = strings.Join(append(desc, "no-galaxy-state"), "+")
 		return
@@ -243,8 +252,9 @@ func (w *World) setupPriorKernel() {
 			}
 			desc = append(desc, "junk")
 		}
-		if w.F.GhostPolDrop {
-			// policies that are gone but whose chains the pod chains of living pods may still jump to
+		if w.F.GhostPolDrop || len(ghost.Pols) == 0 {
+			// policies that are gone but whose chains the pod chains of living pods may still jump to (always
+			// when no policy exists now: "the last policy was deleted while galaxy was down")
 			for i, n := 0, c.Range(1, 2); i < n; i++ {
 				p := &Policy{NS: w.G.nsOf(ghost), Name: fmt.Sprintf("old%d", i)}
 				w.G.policySpec(ghost, p)
@@ -311,6 +321,9 @@ func (w *World) Handle(t *core.Task, r *core.Req) core.Resp {
 	case r.Op == "exec":
 		return w.Kern.Handle(r)
 	case strings.HasPrefix(r.Op, "view."), simkube.IsAPI(r.Op):
+		if r.Op == "api.list" && len(r.A) > 0 && r.A[0] == "pods" {
+			w.S.Stat("probe.syncpods-listed-pods-through-client")
+		}
 		return w.K.Handle(t, r)
 	case r.Op == "os.getenv":
 		if len(r.A) > 0 && r.A[0] == "MY_NODE_NAME" {
